@@ -205,6 +205,8 @@ def refine_frame(ex, st, pre_heap, log, uid0, loop_elem=None):
                 conds.append(smt.Contains(loop_elem[0], Val.ref(o)))
             elif name == "$seq" and hint is not None and hint.kind == "list" and hint.name != "Any":
                 conds.append(role_of(o) == ex.rid(hint.name))
+            elif alive_pre is not None and z3.is_const(at) and at.decl().name().startswith("new_") and _max_uid(at) >= uid0:
+                conds.append(z3.Not(alive_pre[o]))      # the written object is one this very iteration allocated (an allocation constant)
             elif pc is not None and alive_pre is not None and proves_fresh(ex, pc, at, alive_pre):
                 conds.append(z3.Not(alive_pre[o]))      # written object was allocated during the loop
             elif pc is not None and ex.entry_alive is not None and proves_fresh(ex, pc, at, ex.entry_alive):
@@ -364,6 +366,9 @@ def for_over(ex, stmt, st, it):
         ex.loop_alive.pop()
     # havoc
     ex.named_heap(st, "$alive")
+    for _w in writes:
+        if _w != "*" and _w not in st.heap:
+            ex.heap_get(st, _w)         # a heap first touched inside the loop: materialise its pre-loop value so the frame can refer to it
     pre_heap = dict(st.heap)
     pre_heap["$alive"] = ex.named_heap(st, "$alive")
     ex.loop_alive.append(pre_heap["$alive"])
@@ -441,6 +446,9 @@ def exec_while(ex, stmt, st):
     names = assigned_names(stmt.body, st.env)
     check_invs(ex, st, invs, {}, lk + "-init", stmt)
     ex.named_heap(st, "$alive")
+    for _w in writes:
+        if _w != "*" and _w not in st.heap:
+            ex.heap_get(st, _w)
     pre_heap = dict(st.heap)
     pre_heap["$alive"] = ex.named_heap(st, "$alive")
     uid0 = next(_uid)
